@@ -1149,6 +1149,12 @@ def oracle_sync(case, res):
     demanded = (case["pat"]["k"] == "prbs" and case["pat"]["n"] >= 32 and case["sps"] >= 1 and res["aperiodic"]
                 and case.get("rxlen") is None and case["periods"] >= 2 and d < l and case["amp"] > 0
                 and case.get("offset", 0) == 0)
+    if case.get("codes") and case.get("fill") != "cyclic":
+        # raw-code records (int8 -100/+100, int32 +-2e9 ...) are bipolar: a prefix of ZERO codes is the mid level, not the
+        # pattern's baseline, so the record is not "the pattern's waveform repeated and delayed"; SYNC's own 3*std acceptance
+        # test may (and for delays near one pattern length does) reject it — seeds 71..79 of a sweep.  Such records are still
+        # run (dtype handling, the margin theorem) but acceptance is demanded only for the cyclic fill of the statement.
+        demanded = False
     if case.get("sigma", 0) > 0.2:
         demanded = False                  # beyond "moderate noise": only the decision-margin theorem says anything (index d
                                           # when the margin hypothesis holds and the record is not rejected by the 3*std test)
